@@ -72,7 +72,9 @@ structure LB (σ : Type) where
       event present, `b` = it has been set -/
   queued : List (Option Bool) := []
 
-/-- `Open()` -/
+/-- `Open()`: the first call spawns `_OpenImpl`; a call on a balancer that is already opening or open
+    (`__open_ar` exists) returns the same open result and does nothing else — `started` stays set, nothing
+    else is touched, `_OpenImpl` (`LB.load`) is not run again -/
 def LB.start (lb : LB σ) : LB σ := { lb with started := true }
 
 /-- a server-set callback arrives -/
